@@ -2,6 +2,8 @@ package nfa
 
 import (
 	"regexp/syntax"
+	"unicode"
+	"unicode/utf8"
 )
 
 // FirstByteSet represents the set of bytes that can start a match.
@@ -77,22 +79,36 @@ func extractFirstBytesRecursive(re *syntax.Regexp, result *FirstByteSet, depth i
 			return false // Empty literal matches empty string
 		}
 		r := re.Rune[0]
-		if r > 255 {
-			return false // Non-ASCII, too complex
+		if r >= utf8.RuneSelf {
+			return false // Non-ASCII: the first byte is a UTF-8 lead byte, too complex
 		}
-		result.bytes[byte(r)] = true
-		result.count++
+		if re.Flags&syntax.FoldCase != 0 {
+			// Case-insensitive literal: every member of the simple-fold orbit can start
+			// a match (e.g. (?i)a matches "a" and "A"; k also matches U+212A).
+			for f := unicode.SimpleFold(r); f != r; f = unicode.SimpleFold(f) {
+				if f >= utf8.RuneSelf {
+					return false // Orbit leaves ASCII, too complex
+				}
+				if !result.bytes[byte(f)] {
+					result.bytes[byte(f)] = true
+					result.count++
+				}
+			}
+		}
+		if !result.bytes[byte(r)] {
+			result.bytes[byte(r)] = true
+			result.count++
+		}
 		return true
 
 	case syntax.OpCharClass:
 		// Character class: add all bytes in the class
 		for i := 0; i < len(re.Rune); i += 2 {
 			lo, hi := re.Rune[i], re.Rune[i+1]
-			if hi > 255 {
-				hi = 255 // Truncate to ASCII
-			}
-			if lo > 255 {
-				continue // Skip non-ASCII ranges
+			if hi >= utf8.RuneSelf {
+				// Non-ASCII members start with UTF-8 lead bytes, not with the
+				// byte value of the code point: too complex
+				return false
 			}
 			for r := lo; r <= hi; r++ {
 				if !result.bytes[byte(r)] {
@@ -128,8 +144,9 @@ func extractFirstBytesRecursive(re *syntax.Regexp, result *FirstByteSet, depth i
 		return true
 
 	case syntax.OpEndLine, syntax.OpEndText:
-		// End anchors: pattern could match at end, need to check next part
-		return true
+		// End anchors consume nothing: a branch starting with one can match
+		// without a first byte, so no first-byte set exists
+		return false
 
 	case syntax.OpCapture:
 		// Capture group: recurse into content
